@@ -15,12 +15,12 @@ Arguments N.of_nat : simpl never.
 Definition live_t := list (conn * (peer * bool)).
 
 Definition is_accept (c : conn) (o : out) : bool :=
-  match o with CallAccept d => d =? c | _ => false end.
+  match o with CallAccept d _ => d =? c | _ => false end.
 
 (* ghost step: how the ledger of established connections evolves *)
 Definition live_step (e : ev) (os : list out) (l : live_t) : live_t :=
   match e with
-  | TrEstablished p c lst f => if existsb (is_accept c) os && negb f then (c, (p, lst)) :: l else l
+  | TrEstablished p c _ lst f => if existsb (is_accept c) os && negb f then (c, (p, lst)) :: l else l
   | AcceptDone c ok => if ok then l else remove_key c l
   | Closed p c => remove_key c l
   | _ => l
@@ -39,7 +39,7 @@ Definition keys {A} (l : list (N * A)) : list N := map fst l.
    connection belongs to and comes after the accept future completed. *)
 Definition env_ok (m : mgr) (l : live_t) (e : ev) : Prop :=
   match e with
-  | TrEstablished p c lst f => lookup c l = None
+  | TrEstablished p c _ lst f => lookup c l = None
   | Closed p c => (forall q b, lookup c l = Some (q, b) -> q = p) /\ ~ In c (keys (accepting m))
   | AcceptDone c ok => In c (keys (accepting m))      (* only an existing accept future resolves *)
   | _ => True
@@ -213,6 +213,24 @@ Qed.
 Lemma state_of_peers m1 m2 q : peers m1 = peers m2 -> state_of m1 q = state_of m2 q.
 Proof. unfold state_of. now intros ->. Qed.
 
+(* the address book is a separate field: adding an address changes nothing else *)
+Lemma add_addr_peers m p a : peers (add_addr m p a) = peers m.
+Proof. unfold add_addr. destruct (existsb _ _); reflexivity. Qed.
+Lemma add_addr_pending m p a : pending (add_addr m p a) = pending m.
+Proof. unfold add_addr. destruct (existsb _ _); reflexivity. Qed.
+Lemma add_addr_ins m p a : ins (add_addr m p a) = ins m.
+Proof. unfold add_addr. destruct (existsb _ _); reflexivity. Qed.
+Lemma add_addr_outs m p a : outs (add_addr m p a) = outs m.
+Proof. unfold add_addr. destruct (existsb _ _); reflexivity. Qed.
+Lemma add_addr_accepting m p a : accepting (add_addr m p a) = accepting m.
+Proof. unfold add_addr. destruct (existsb _ _); reflexivity. Qed.
+Lemma add_addr_oerrs m p a : oerrs (add_addr m p a) = oerrs m.
+Proof. unfold add_addr. destruct (existsb _ _); reflexivity. Qed.
+Lemma add_addr_next_conn m p a : next_conn (add_addr m p a) = next_conn m.
+Proof. unfold add_addr. destruct (existsb _ _); reflexivity. Qed.
+Lemma so_add_addr m p a q : state_of (add_addr m p a) q = state_of m q.
+Proof. apply state_of_peers, add_addr_peers. Qed.
+
 (* ---------- PeerState transitions keep / drop recorded connections ---------- *)
 Lemma recorded_on_dial_failure s c d : recorded s c -> recorded (st_on_dial_failure s d) c.
 Proof.
@@ -253,7 +271,7 @@ Qed.
 Lemma not_recorded_fresh s : can_dial s = GateOk -> forall c, ~ recorded s c.
 Proof. destruct s as [r sc| | |[e|]]; cbn [can_dial recorded]; try discriminate; tauto. Qed.
 
-Lemma not_recorded_opening d c : ~ recorded (Opening d) c.
+Lemma not_recorded_opening d ts c : ~ recorded (Opening d ts) c.
 Proof. cbn. tauto. Qed.
 
 (* ---------- the cap invariant is preserved ---------- *)
@@ -289,30 +307,36 @@ Proof.
   - eauto.
 Qed.
 
-Lemma cap_dial_peer m l p f : CapInv L m l -> CapInv L (fst (do_dial_peer L m p f)) l.
+Lemma cap_add_addr m l p a : CapInv L m l -> CapInv L (add_addr m p a) l.
+Proof.
+  intros I. eapply cap_same_core; [| | | |exact I];
+    [apply add_addr_peers|apply add_addr_ins|apply add_addr_outs|apply add_addr_accepting].
+Qed.
+
+Lemma cap_dial_peer m l p ts fl : CapInv L m l -> CapInv L (fst (do_dial_peer L m p ts fl)) l.
 Proof.
   intros I. unfold do_dial_peer.
   destruct (limit_reached (max_out L) (outs m)); [exact I|].
   destruct (p =? LOCAL); [exact I|].
   destruct (can_dial (state_of m p)) eqn:Eg; try exact I.
-  destruct (negb (mem p (known m))); [exact I|].
-  assert (I1 : CapInv L (set_state (bump_conn m) p (Opening (next_conn m))) l).
+  destruct (is_nil (addrs_of m p)); [exact I|].
+  assert (I1 : CapInv L (set_state (bump_conn m) p (Opening (next_conn m) ts)) l).
   { apply cap_set_state.
     - eapply cap_same_core; [| | | |exact I]; reflexivity.
     - intros c b Hl. exfalso. destruct I as [H1 _ _ _ _ _ _ _ _ _ _ _].
       exact (not_recorded_fresh _ Eg c (H1 _ _ _ Hl)). }
-  destruct f; cbn [fst]; [exact I1|].
+  destruct (open_calls L (next_conn m) ts fl) as [calls ok]. destruct ok; cbn [fst]; [|exact I1].
   eapply cap_same_core; [| | | |exact I1]; reflexivity.
 Qed.
 
-Lemma cap_dial_addr m l p f : CapInv L m l -> CapInv L (fst (do_dial_addr L m p f)) l.
+Lemma cap_dial_addr m l p t a f : CapInv L m l -> CapInv L (fst (do_dial_addr L m p t a f)) l.
 Proof.
   intros I. unfold do_dial_addr.
-  destruct (limit_reached (max_out L) (outs m)); [exact I|].
-  assert (I0 : CapInv L (set_known (bump_conn m) p) l).
-  { eapply cap_same_core; [| | | |exact I]; reflexivity. }
-  destruct (can_dial (state_of (set_known (bump_conn m) p) p)) eqn:Eg; try exact I0.
-  assert (I1 : CapInv L (set_state (set_known (bump_conn m) p) p (Dialing (next_conn m))) l).
+  destruct (negb (installed L t)); [exact I|].
+  assert (I0 : CapInv L (add_addr (bump_conn m) p a) l).
+  { apply cap_add_addr. eapply cap_same_core; [| | | |exact I]; reflexivity. }
+  destruct (can_dial (state_of (add_addr (bump_conn m) p a) p)) eqn:Eg; try exact I0.
+  assert (I1 : CapInv L (set_state (add_addr (bump_conn m) p a) p (Dialing (next_conn m))) l).
   { apply cap_set_state; [exact I0|].
     intros c b Hl. exfalso. destruct I0 as [H1 _ _ _ _ _ _ _ _ _ _ _].
     exact (not_recorded_fresh _ Eg c (H1 _ _ _ Hl)). }
@@ -322,19 +346,18 @@ Proof.
   - eapply cap_same_core; [| | | |exact I1]; reflexivity.
 Qed.
 
-Lemma cap_dial_shape m l a : CapInv L m l -> CapInv L (fst (do_dial_shape L m a)) l.
+Lemma cap_dial_shape m l a f : CapInv L m l -> CapInv L (fst (do_dial_shape L m a f)) l.
 Proof.
   intros I. unfold do_dial_shape.
   destruct (limit_reached (max_out L) (outs m)); [exact I|].
-  destruct (DialShape.dial_shape LISTEN a); [exact I | now apply cap_dial_addr | exact I].
+  destruct (DialShape.dial_shape LISTEN a); [exact I | now apply cap_dial_addr | now apply cap_dial_addr].
 Qed.
 
-Lemma cap_dial_failure m l c pa : CapInv L m l -> CapInv L (fst (do_dial_failure m c pa)) l.
+Lemma cap_dial_failure m l c t pa : CapInv L m l -> CapInv L (fst (do_dial_failure m c t pa)) l.
 Proof.
   intros I. unfold do_dial_failure.
-  assert (I0 : CapInv L (set_known m pa) l).
-  { eapply cap_same_core; [| | | |exact I]; reflexivity. }
-  destruct (lookup c (pending (set_known m pa))) as [p|]; [|exact I0].
+  assert (I0 : CapInv L (add_addr m pa (canon pa t)) l) by now apply cap_add_addr.
+  destruct (lookup c (pending (add_addr m pa (canon pa t)))) as [p|]; [|exact I0].
   cbn [fst]. apply cap_set_state.
   - eapply cap_same_core; [| | | |exact I0]; reflexivity.
   - intros d b Hl. apply recorded_on_dial_failure.
@@ -342,36 +365,45 @@ Proof.
     exact (H1 _ _ _ Hl).
 Qed.
 
-Lemma cap_opened m l c f : CapInv L m l -> CapInv L (fst (do_opened m c f)) l.
+Lemma cap_opened m l c t f : CapInv L m l -> CapInv L (fst (do_opened L m c t f)) l.
 Proof.
   intros I. unfold do_opened.
-  destruct (lookup c (pending m)) as [p|]; [|exact I].
-  set (m1 := set_known (set_pending m (remove_key c (pending m))) p).
+  set (me := set_oerrs m (remove_key c (oerrs m))).
+  assert (Ie : CapInv L me l) by (eapply cap_same_core; [| | | |exact I]; reflexivity).
+  destruct (lookup c (pending me)) as [p|]; [|exact Ie].
+  set (m1 := add_addr (set_pending me (remove_key c (pending me))) p (canon p t)).
   assert (I1 : CapInv L m1 l).
-  { eapply cap_same_core; [| | | |exact I]; reflexivity. }
-  destruct (state_of m1 p) as [r sc|d|d|d] eqn:Es; try exact I1.
+  { apply cap_add_addr. eapply cap_same_core; [| | | |exact Ie]; reflexivity. }
+  destruct (state_of m1 p) as [r sc|d ts|d|d] eqn:Es; try exact I1.
   assert (Hnone : forall c0 b, lookup c0 l = Some (p, b) -> False).
   { intros c0 b Hl. destruct I1 as [H1 _ _ _ _ _ _ _ _ _ _ _].
     specialize (H1 _ _ _ Hl). rewrite Es in H1. exact H1. }
   assert (I2 : CapInv L (set_state m1 p (Dialing c)) l).
   { apply cap_set_state; [exact I1|]. intros c0 b Hl. exfalso. eauto. }
+  destruct (negb (forallb (installed L) ts)); [exact I2|].
   destruct f; cbn [fst].
   - apply cap_set_state; [exact I2|]. intros c0 b Hl. exfalso. eauto.
   - eapply cap_same_core; [| | | |exact I2]; reflexivity.
 Qed.
 
-Lemma cap_open_failure m l c pa : CapInv L m l -> CapInv L (fst (do_open_failure m c pa)) l.
+Lemma cap_open_failure m l c t pa : CapInv L m l -> CapInv L (fst (do_open_failure m c t pa)) l.
 Proof.
   intros I. unfold do_open_failure.
-  assert (I0 : CapInv L (set_known m pa) l).
-  { eapply cap_same_core; [| | | |exact I]; reflexivity. }
-  destruct (lookup c (pending (set_known m pa))) as [p|]; [|exact I0].
-  destruct (state_of (set_known m pa) p) as [r sc|d|d|d] eqn:Es; try exact I0.
-  cbn [fst]. apply (cap_same_core (set_state (set_known m pa) p (Disconnected None)));
-    [reflexivity|reflexivity|reflexivity|reflexivity|].
-  apply cap_set_state; [exact I0|].
-  intros c0 b Hl. exfalso. destruct I0 as [H1 _ _ _ _ _ _ _ _ _ _ _].
-  specialize (H1 _ _ _ Hl). rewrite Es in H1. exact H1.
+  set (m0 := add_addr m pa (canon pa t)).
+  assert (I0 : CapInv L m0 l) by now apply cap_add_addr.
+  destruct (lookup c (pending m0)) as [p|]; [|exact I0].
+  destruct (state_of m0 p) as [r sc|d ts|d|d] eqn:Es; try exact I0.
+  destruct (mem t ts); [|exact I0].
+  assert (Hnone : forall c0 b, lookup c0 l = Some (p, b) -> False).
+  { intros c0 b Hl. destruct I0 as [H1 _ _ _ _ _ _ _ _ _ _ _].
+    specialize (H1 _ _ _ Hl). rewrite Es in H1. exact H1. }
+  destruct (remove_tr t ts) as [|x r]; cbn [fst].
+  - apply (cap_same_core (set_state m0 p (Disconnected None)));
+      [reflexivity|reflexivity|reflexivity|reflexivity|].
+    apply cap_set_state; [exact I0|]. intros c0 b Hl. exfalso. eauto.
+  - apply (cap_same_core (set_state m0 p (Opening d (x :: r))));
+      [reflexivity|reflexivity|reflexivity|reflexivity|].
+    apply cap_set_state; [exact I0|]. intros c0 b Hl. exfalso. eauto.
 Qed.
 
 (* do_closed removes c from the limits, the peer state and (ghost) the ledger *)
@@ -498,10 +530,10 @@ Proof.
   - assumption.
 Qed.
 
-Lemma cap_established_checked m1 l p c (lst f : bool) :
+Lemma cap_established_checked m1 l p c t (lst f : bool) :
   CapInv L m1 l -> lookup c l = None ->
-  CapInv L (fst (do_established_checked L m1 p c lst f))
-         (if existsb (is_accept c) (snd (do_established_checked L m1 p c lst f)) && negb f
+  CapInv L (fst (do_established_checked L m1 p c t lst f))
+         (if existsb (is_accept c) (snd (do_established_checked L m1 p c t lst f)) && negb f
           then (c, (p, lst)) :: l else l).
 Proof.
   intros I Hc. unfold do_established_checked.
@@ -527,14 +559,10 @@ Proof.
   { intros pend'. subst m3 m2. destruct lst; reflexivity. }
   assert (Hfinish : forall m4 cancels,
             (exists pend', m4 = set_pending m3 pend') ->
-            CapInv L (fst (if f then let '(m5, _) := do_closed m4 p c in (m5, cancels ++ [CallAccept c])
-                           else (set_accepting m4 (accepting m4 ++ [(c, (p, lst))]), cancels ++ [CallAccept c])))
-                   (if existsb (is_accept c)
-                         (snd (if f then let '(m5, _) := do_closed m4 p c in (m5, cancels ++ [CallAccept c])
-                               else (set_accepting m4 (accepting m4 ++ [(c, (p, lst))]), cancels ++ [CallAccept c])))
-                       && negb f
+            CapInv L (fst (est_finish m4 p c t lst f cancels))
+                   (if existsb (is_accept c) (snd (est_finish m4 p c t lst f cancels)) && negb f
                     then (c, (p, lst)) :: l else l)).
-  { intros m4 cancels [pend' ->]. pose proof (Hcore pend') as J. destruct f.
+  { intros m4 cancels [pend' ->]. unfold est_finish. pose proof (Hcore pend') as J. destruct f.
     - destruct (do_closed (set_pending m3 pend') p c) as [m5 rep] eqn:Ecl. cbn [fst snd negb].
       rewrite andb_false_r.
       assert (Hrm : remove_key c ((c, (p, lst)) :: l) = l).
@@ -545,7 +573,7 @@ Proof.
         - rewrite Hacc3. exact Hck. }
       rewrite Hrm, Ecl in K. exact K.
     - cbn [fst snd negb]. rewrite andb_true_r.
-      assert (existsb (is_accept c) (cancels ++ [CallAccept c]) = true) as ->.
+      assert (existsb (is_accept c) (cancels ++ [CallAccept c t]) = true) as ->.
       { rewrite existsb_app. cbn [existsb is_accept]. assert (c =? c = true) as -> by lia.
         now rewrite orb_true_r. }
       destruct J as [H1 H2 H3 H4 H5 H6 H7 H8 H9 H10 H11 H12].
@@ -559,8 +587,11 @@ Proof.
         apply (Permutation_NoDup (l := c :: keys (accepting m1))).
         * apply Permutation_cons_append.
         * constructor; assumption. }
-  destruct (state_of m1 p) as [r sc|d|d|d] eqn:Es; cbv iota beta;
-    apply Hfinish; try (exists (pending m3); exact Hm3); eexists; reflexivity.
+  destruct (state_of m1 p) as [r sc|d ts|d|d] eqn:Es; cbv iota beta;
+    try (apply Hfinish; exists (pending m3); exact Hm3).
+  destruct (negb (forallb (installed L) ts)).
+  - cbn [fst snd existsb is_accept andb]. exact I.
+  - apply Hfinish. eexists. reflexivity.
 Qed.
 
 Lemma cap_accept_done m l c ok :
@@ -590,17 +621,19 @@ Proof.
     assert (c =? c = true) as E by lia. rewrite E in Hv. discriminate.
 Qed.
 
-Lemma cap_established m l p c (lst f : bool) :
+Lemma cap_established m l p c t (lst f : bool) :
   CapInv L m l -> lookup c l = None ->
-  CapInv L (fst (do_established L m p c lst f))
-         (if existsb (is_accept c) (snd (do_established L m p c lst f)) && negb f
+  CapInv L (fst (do_established L m p c t lst f))
+         (if existsb (is_accept c) (snd (do_established L m p c t lst f)) && negb f
           then (c, (p, lst)) :: l else l).
 Proof.
   intros I Hc. unfold do_established.
-  set (m0 := if lst then m else set_known m p).
+  set (me := set_oerrs m (remove_key c (oerrs m))).
+  set (m0 := if lst then me else add_addr me p (canon p t)).
   set (m1 := set_pending m0 (remove_key c (pending m0))).
-  assert (I1 : CapInv L m1 l).
-  { subst m1 m0. destruct lst; (eapply cap_same_core; [| | | |exact I]; reflexivity). }
+  assert (Ie : CapInv L me l) by (eapply cap_same_core; [| | | |exact I]; reflexivity).
+  assert (I0 : CapInv L m0 l) by (subst m0; destruct lst; [exact Ie | now apply cap_add_addr]).
+  assert (I1 : CapInv L m1 l) by (subst m1; eapply cap_same_core; [| | | |exact I0]; reflexivity).
   destruct (lookup c (pending m0)) as [dp|].
   - destruct (dp =? p).
     + now apply cap_established_checked.
@@ -608,24 +641,42 @@ Proof.
   - now apply cap_established_checked.
 Qed.
 
+Lemma cap_hdial_peer m l p ts fl clog : CapInv L m l -> CapInv L (fst (do_hdial_peer L m p ts fl clog)) l.
+Proof.
+  intros I. unfold do_hdial_peer. destruct (handle_gate m p); try exact I.
+  destruct clog; [exact I|].
+  pose proof (cap_dial_peer m l p ts fl I) as K. destruct (do_dial_peer L m p ts fl) as [m1 os]. exact K.
+Qed.
+
+Lemma cap_hdial_addr m l a clog : CapInv L m l -> CapInv L (fst (do_hdial_addr L m a clog)) l.
+Proof.
+  intros I. unfold do_hdial_addr. destruct (negb (existsb is_p2p a)); [exact I|].
+  destruct clog; [exact I|].
+  pose proof (cap_dial_shape m l a false I) as K. destruct (do_dial_shape L m a false) as [m1 os]. exact K.
+Qed.
+
 Theorem cap_step m l e :
   CapInv L m l -> env_ok m l e ->
   CapInv L (fst (step L m e)) (live_step e (snd (step L m e)) l).
 Proof.
-  intros I He. destruct e as [p f|p f|p|c pa|c f|c pa|p c lst f|c|c ok|p c| |a]; cbn [step live_step env_ok] in *.
+  intros I He.
+  destruct e as [p ts fl|p t f|p t|c t pa|c t f|c t pa|p c t lst f|c t|c ok|p c| |a|p ts fl clog|a clog];
+    cbn [step live_step env_ok] in *.
   - now apply cap_dial_peer.
-  - now apply cap_dial_addr.
-  - cbn [fst]. eapply cap_same_core; [| | | |exact I]; reflexivity.
-  - now apply cap_dial_failure.
-  - now apply cap_opened.
-  - now apply cap_open_failure.
-  - now apply cap_established.
-  - destruct (limit_reached (max_in L) (ins m)); exact I.
+  - now apply cap_dial_shape.
+  - cbn [fst]. destruct (installed L _); [now apply cap_add_addr | exact I].
+  - destruct (installed L t); [now apply cap_dial_failure | exact I].
+  - destruct (installed L t); [now apply cap_opened | exact I].
+  - destruct (installed L t); [now apply cap_open_failure | exact I].
+  - destruct (installed L t); [now apply cap_established | exact I].
+  - destruct (installed L t); [|exact I]. destruct (limit_reached (max_in L) (ins m)); exact I.
   - pose proof (cap_accept_done m l c ok I He) as K. destruct ok; exact K.
   - destruct He as [He1 He2]. pose proof (cap_closed m l p c I He1 He2) as K.
     destruct (do_closed m p c) as [m1 rep]. exact K.
   - cbn [fst]. eapply cap_same_core; [| | | |exact I]; reflexivity.
   - now apply cap_dial_shape.
+  - now apply cap_hdial_peer.
+  - now apply cap_hdial_addr.
 Qed.
 
 (* runs with the ghost ledger *)
@@ -747,28 +798,32 @@ Proof.
 Qed.
 
 (* at the limit a dial is refused and nothing changes *)
-Theorem dial_gate L m p f :
+Theorem dial_gate L m p ts fl a f :
   limit_reached (max_out L) (outs m) = true ->
-  do_dial_peer L m p f = (m, [Ret RET_LIMIT]) /\ do_dial_addr L m p f = (m, [Ret RET_LIMIT]).
-Proof. intros H. unfold do_dial_peer, do_dial_addr. rewrite H. split; reflexivity. Qed.
+  do_dial_peer L m p ts fl = (m, [Ret RET_LIMIT]) /\ do_dial_shape L m a f = (m, [Ret RET_LIMIT]).
+Proof. intros H. unfold do_dial_peer, do_dial_shape. rewrite H. split; reflexivity. Qed.
 
 (* below the limit a connection from a peer without any connection or dial is accepted *)
-Theorem below_limit_accepts L m p c (lst f : bool) :
+Theorem below_limit_accepts L m p c t (lst f : bool) :
   limit_reached (if lst then max_in L else max_out L) (if lst then ins m else outs m) = false ->
   state_of m p = Disconnected None ->
   (forall q, lookup c (pending m) = Some q -> q = p) ->
-  In (CallAccept c) (snd (do_established L m p c lst f)).
+  In (CallAccept c t) (snd (do_established L m p c t lst f)).
 Proof.
   intros Hlim Hst Hpend. unfold do_established.
-  set (m0 := if lst then m else set_known m p).
-  assert (Hp0 : pending m0 = pending m) by (subst m0; destruct lst; reflexivity).
-  assert (Hins : forall pd, ins (set_pending m0 pd) = ins m) by (intros; subst m0; destruct lst; reflexivity).
-  assert (Houts : forall pd, outs (set_pending m0 pd) = outs m) by (intros; subst m0; destruct lst; reflexivity).
+  set (me := set_oerrs m (remove_key c (oerrs m))).
+  set (m0 := if lst then me else add_addr me p (canon p t)).
+  assert (Hp0 : pending m0 = pending m) by (subst m0 me; destruct lst; [reflexivity | now rewrite add_addr_pending]).
+  assert (Hins : forall pd, ins (set_pending m0 pd) = ins m)
+    by (intros; subst m0 me; destruct lst; cbn [set_pending ins]; [reflexivity | now rewrite add_addr_ins]).
+  assert (Houts : forall pd, outs (set_pending m0 pd) = outs m)
+    by (intros; subst m0 me; destruct lst; cbn [set_pending outs]; [reflexivity | now rewrite add_addr_outs]).
   assert (Hs0 : forall pd, state_of (set_pending m0 pd) p = Disconnected None).
-  { intros pd. rewrite <- Hst. apply state_of_peers. subst m0. destruct lst; reflexivity. }
-  assert (Hchk : forall pd, In (CallAccept c) (snd (do_established_checked L (set_pending m0 pd) p c lst f))).
+  { intros pd. rewrite <- Hst. apply state_of_peers. subst m0 me. destruct lst; cbn [set_pending peers];
+      [reflexivity | now rewrite add_addr_peers]. }
+  assert (Hchk : forall pd, In (CallAccept c t) (snd (do_established_checked L (set_pending m0 pd) p c t lst f))).
   { intros pd. unfold do_established_checked. rewrite Hins, Houts, Hlim, Hs0.
-    cbn [st_on_established negb]. destruct f.
+    cbn [st_on_established negb]. unfold est_finish. destruct f.
     - destruct (do_closed _ p c) as [m5 r]. cbn [snd app]. now left.
     - cbn [snd app]. now left. }
   rewrite Hp0. destruct (lookup c (pending m)) as [dp|] eqn:El.
@@ -776,19 +831,21 @@ Proof.
   - apply Hchk.
 Qed.
 
-(* a rejected connection leaves every established connection record untouched *)
-Theorem reject_preserves L m p c (lst f : bool) q d :
-  In (CallReject c) (snd (do_established L m p c lst f)) ->
-  recorded (state_of m q) d -> recorded (state_of (fst (do_established L m p c lst f)) q) d.
+(* a rejected surplus connection leaves every established connection record untouched *)
+Theorem reject_preserves L m p c t (lst f : bool) q d :
+  In (CallReject c t) (snd (do_established L m p c t lst f)) ->
+  recorded (state_of m q) d -> recorded (state_of (fst (do_established L m p c t lst f)) q) d.
 Proof.
   unfold do_established.
-  set (m0 := if lst then m else set_known m p).
+  set (me := set_oerrs m (remove_key c (oerrs m))).
+  set (m0 := if lst then me else add_addr me p (canon p t)).
   set (m1 := set_pending m0 (remove_key c (pending m0))).
   assert (Hs : forall x, state_of m1 x = state_of m x).
-  { intros x. apply state_of_peers. subst m1 m0. destruct lst; reflexivity. }
-  assert (Hchk : In (CallReject c) (snd (do_established_checked L m1 p c lst f)) ->
+  { intros x. apply state_of_peers. subst m1 m0 me. destruct lst; cbn [set_pending peers];
+      [reflexivity | now rewrite add_addr_peers]. }
+  assert (Hchk : In (CallReject c t) (snd (do_established_checked L m1 p c t lst f)) ->
                  recorded (state_of m q) d ->
-                 recorded (state_of (fst (do_established_checked L m1 p c lst f)) q) d).
+                 recorded (state_of (fst (do_established_checked L m1 p c t lst f)) q) d).
   { unfold do_established_checked.
     destruct (limit_reached _ _).
     - cbn [fst snd]. intros _ Hr.
@@ -798,9 +855,18 @@ Proof.
     - destruct (st_on_established (state_of m1 p) c) as [s' acc]. destruct acc; cbn [negb].
       + (* accepted: the outputs contain no reject *)
         intros Hin. exfalso.
-        destruct (state_of m1 p) as [r sc|o|o|o]; cbv beta iota zeta in Hin; destruct f;
-          try match type of Hin with context [do_closed ?a ?b ?c0] => destruct (do_closed a b c0) end;
-          cbn [snd app In] in Hin; intuition discriminate.
+        assert (Hfin : forall m4 cancels, (forall o, In o cancels -> exists x y, o = CallCancel x y) ->
+                  ~ In (CallReject c t) (snd (est_finish m4 p c t lst f cancels))).
+        { intros m4 cancels Hcan. unfold est_finish. destruct f.
+          - destruct (do_closed m4 p c). cbn [snd]. rewrite in_app_iff. cbn [In].
+            intros [H|[H|[]]]; [|discriminate]. destruct (Hcan _ H) as (x & y & Hx). discriminate.
+          - cbn [snd]. rewrite in_app_iff. cbn [In].
+            intros [H|[H|[]]]; [|discriminate]. destruct (Hcan _ H) as (x & y & Hx). discriminate. }
+        destruct (state_of m1 p) as [r sc|o ts|o|o]; cbv beta iota zeta in Hin;
+          try (eapply Hfin; [|exact Hin]; intros o0 []).
+        destruct (negb (forallb (installed L) ts)).
+        * cbn [snd In] in Hin. destruct Hin as [Hin|[]]. discriminate.
+        * eapply Hfin; [|exact Hin]. intros o0 Ho. apply in_map_iff in Ho. destruct Ho as (y & <- & _). eauto.
       + cbn [fst snd]. intros _ Hr. now rewrite Hs. }
   destruct (lookup c (pending m0)) as [dp|].
   - destruct (dp =? p); [exact Hchk|]. cbn [fst snd In]. intros [H|[]]. discriminate.
